@@ -137,10 +137,34 @@ def gen(rng, cid, nops):
     return scn, meta
 
 
+def gen_storm(rng, cid, nburst):
+    """the directory is removed and re-created (or renamed away) hundreds of times back to back while the service keeps re-arming
+    its watch on every tick; in the end three valid files are written. Aimed at the instant between looking the directory up
+    and placing the watch."""
+    ops = []
+    for _ in range(nburst):
+        ops.append({"op": rng.choice(["rmdir_mkdir"] * 5 + ["mvdir_mkdir"]), "gap_us": rng.choice([0, 0, 0, 0, 50, 300])})
+        if rng.random() < 0.02:
+            ops.append({"op": "wait_ticks", "n": 1})
+    state = {}
+    for j, f in enumerate(rng.sample(FILES[:5], 3)):
+        c = "%s#%d" % (f, j + 1)
+        ops.append({"op": "write", "file": f, "text": content("valid", c)})
+        state[f] = ("valid", c)
+    scn = {"id": cid, "seed": rng.randint(1, 10**6), "base": BASE, "initial": {}, "ops": ops, "missing_at_start": False, "trailing_slash": False,
+           "yield_us": rng.choice([0, 0, 50]), "mutex_yield_ppm": rng.choice([0, 20000]), "storm": nburst}
+    meta = {"final": {f: list(v) for f, v in state.items()}, "initial": {}, "recreated": nburst, "invalid": 0, "missing_at_start": False}
+    return scn, meta
+
+
 def cases(seed, tier):
     quick = tier != "thorough"
     rng = random.Random(seed * 1000003 + 14)
     scns, metas = [], []
+    for i in range(48 if quick else 200):
+        s, m = gen_storm(rng, "C14-%d-storm%d" % (seed, i), 1500 if quick else 3000)
+        scns.append(s)
+        metas.append(m)
     for i in range(40 if quick else 300):
         s, m = gen(rng, "C14-%d-%d" % (seed, i), 80 if quick else 150)
         scns.append(s)
@@ -149,7 +173,8 @@ def cases(seed, tier):
 
 
 def run_batch(driver, flavor, scns):
-    return threads.run(driver, scns, flavor, timeout=240, jobs=8)
+    # more processes than cores on purpose: the races this check is after need threads to be descheduled at odd moments
+    return threads.run(driver, scns, flavor, timeout=240, jobs=32)
 
 
 def active_ids(tick):
@@ -171,6 +196,9 @@ def judge(case, results):
             v.bad("no-output", "", r["err"][-1500:])
             continue
         v.count("runs")
+        if scn.get("storm"):
+            v.count("storm_runs")
+            v.count("storm_directory_replacements", scn["storm"])
         v.count("ticks", out["ticks_done"])
         # start-up: name order => newest (largest name) evaluated first
         want0 = [c for f, (k, c) in sorted(meta["initial"].items(), reverse=True) if k == "valid" and not f.startswith(".")]
